@@ -29,7 +29,8 @@ Definition fp_screen (s : screen) : N :=
                  match menc s with EDefault => 0 | EUtf8 => 1 | ESgr => 2 end] 13.
 Definition fp_bytes (l : list N) : N := fp_list (fun x => x) l.
 
-(* state fingerprint, number of logged events, and fingerprints of the two main emitters *)
+(* state fingerprint, number of logged events, fingerprints of the two main emitters, and of the
+   bytes held back by the parser (Parser.pend: the incomplete utf-8 tail, K04a repair) *)
 Definition fp_case (rows cols cap : N) (rz : bool) (ops : list api_op) : list N :=
   match parser_new rows cols cap rz with
   | Panic _ => [0]
@@ -39,6 +40,7 @@ Definition fp_case (rows cols cap : N) (rz : bool) (ops : list api_op) : list N 
     | Ok q =>
       [2; fp_screen (scr q); len (log q);
        match state_formatted_t (scr q) with Ok ts => fp_bytes (ser_all ts) | Panic _ => 0 end;
-       match contents_text (scr q) with Ok t => fp_bytes t | Panic _ => 0 end]
+       match contents_text (scr q) with Ok t => fp_bytes t | Panic _ => 0 end;
+       fp_bytes (pend q)]
     end
   end.
